@@ -156,15 +156,17 @@ def probe_class():
     return Probe
 
 
-def fit_mt(cfg, h, probe=False, edges_rows=()):
+def fit_mt(cfg, h, probe=False, edges_rows=(), global_offset=0):
     from hypergraphx.communities.hypergraph_mt.model import HypergraphMT
     if probe:
         HypergraphMT = probe_class()
     hk = hooks()
     if hk is not None:
         del hk.EVENTS[:]
-    np.random.seed(cfg["seed"] % (2 ** 32))
-    random.seed(cfg["seed"])
+    # the GLOBAL generators are put into a different state for the second run: "same seed" means the
+    # seed argument of the method, a result must not depend on numpy's / random's global state
+    np.random.seed((cfg["seed"] + 7919 * global_offset) % (2 ** 32))
+    random.seed(cfg["seed"] + 7919 * global_offset)
     m = HypergraphMT(verbose=False, n_realizations=cfg["n_realizations"], max_iter=cfg["max_iter"],
                      check_convergence_every=cfg["every"], min_value_par=cfg["min_value_par"])
     m.verif_cond, m.verif_edges = [], list(edges_rows)
@@ -193,8 +195,8 @@ def observe(cfg, idx):
     with quiet():
         try:
             outs = []
-            for _ in range(2):
-                np.random.seed(cfg["seed"] % (2 ** 32))
+            for attempt in range(2):
+                np.random.seed((cfg["seed"] + 7919 * attempt) % (2 ** 32))
                 outs.append(np.array(HySC(seed=cfg["seed"]).fit(h, K=K, weighted_L=cfg["weighted_L"])))
             a = outs[0]
             code = lambda x: 0 if x == 0 else (1 if x == 1 else 2)
@@ -210,7 +212,7 @@ def observe(cfg, idx):
         try:
             E_rows = [tuple(int(r) for r in inc[:, [j]].nonzero()[0]) for j in range(inc.shape[1])]
             m, u, w, L, ev = fit_mt(cfg, h, probe=True, edges_rows=E_rows)
-            m2, u2, w2, L2, _ = fit_mt(cfg, h)
+            m2, u2, w2, L2, _ = fit_mt(cfg, h, global_offset=1)
         except Exception as ex:
             info["raised"].append(("HypergraphMT.fit", repr(ex)))
             return hy, None, None, info
